@@ -357,7 +357,7 @@ def kinetic_need(calc):
     return np.abs(c).max(axis=0)
 
 
-def hidden_image_matrix(rng, calc, maxsites, tries=600):
+def hidden_image_matrix(rng, calc, maxsites, tries=2500):
     """Searches a skewed supercell matrix for which every kinetic state lies inside the half cell (supercell
     direct coordinates in (-1/2, 1/2)) although some state has a strictly closer periodic image: such a cell is
     too small by the minimum-image criterion, but the documented half-cell test cannot see it.  None if not found."""
